@@ -241,8 +241,14 @@ impl<T> FaultIter<T> {
     pub fn lying(items: Vec<T>, len: usize) -> Self {
         FaultIter { items: items.into(), lie: Some(len) }
     }
-    pub fn remaining(self) -> Vec<T> {
-        self.items.into_iter().collect()
+    pub fn remaining(mut self) -> Vec<T> {
+        std::mem::take(&mut self.items).into_iter().collect()
+    }
+}
+/// The iterator's own destructor is caller code too: it ticks the fault clock (not while unwinding).
+impl<T> Drop for FaultIter<T> {
+    fn drop(&mut self) {
+        tick("iter.drop");
     }
 }
 impl<T> Iterator for FaultIter<T> {
